@@ -104,9 +104,9 @@ def build_harness(cmd, tags="verif", race=False):
 
 # ------------------------------------------------------------------ Coq side
 
-def qflags(area):
+def qflags(area, root=None):
     """-Q flags of an area's _CoqProject, with absolute paths."""
-    d = os.path.join(COQ, area)
+    d = os.path.join(root or COQ, area)
     flags = []
     for line in open(os.path.join(d, "_CoqProject")):
         t = line.split()
@@ -115,9 +115,9 @@ def qflags(area):
     return flags
 
 
-def area_deps(area):
+def area_deps(area, root=None):
     """Other areas an area's _CoqProject refers to (built first)."""
-    d = os.path.join(COQ, area)
+    d = os.path.join(root or COQ, area)
     deps = []
     for line in open(os.path.join(d, "_CoqProject")):
         t = line.split()
@@ -126,7 +126,7 @@ def area_deps(area):
     return deps
 
 
-def coq_build(area, clean=False, _seen=None, targets=None):
+def coq_build(area, clean=False, _seen=None, targets=None, root=None):
     """Full .vo build of an area (and the areas it depends on). Returns (ok, log).
     targets: optional list of .vo files (closure built by make) instead of the whole area."""
     _seen = _seen if _seen is not None else set()
@@ -134,13 +134,13 @@ def coq_build(area, clean=False, _seen=None, targets=None):
         return True, ""
     _seen.add(area)
     logs = []
-    for dep in area_deps(area):
-        ok, lg = coq_build(dep, clean, _seen)
+    for dep in area_deps(area, root):
+        ok, lg = coq_build(dep, False, _seen, root=root)
         logs.append(lg)
         if not ok:
             return False, "\n".join(logs)
-    d = os.path.join(COQ, area)
-    with Lock("coq." + area):
+    d = os.path.join(root or COQ, area)
+    with Lock("coq." + area + ("" if root is None else "." + os.path.basename(os.path.dirname(root)))):
         mk = os.path.join(d, "Makefile")
         cp = os.path.join(d, "_CoqProject")
         if not os.path.exists(mk) or os.path.getmtime(mk) < os.path.getmtime(cp):
@@ -158,15 +158,30 @@ def coq_build(area, clean=False, _seen=None, targets=None):
 THM = re.compile(r"^\s*(Theorem|Lemma|Corollary|Example|Fact|Proposition)\s+([A-Za-z0-9_']+)", re.M)
 
 
-def props_obligations(area, props_file):
+def private_copy(area, dest):
+    """Copy the sources (.v, _CoqProject) of an area and of the areas it depends on into dest/ for a
+    from-clean build that cannot disturb (or be disturbed by) builds running in the shared tree."""
+    if os.path.isdir(dest):
+        shutil.rmtree(dest)
+    for a in closure_areas(area):
+        src = os.path.join(COQ, a)
+        dst = os.path.join(dest, a)
+        os.makedirs(dst)
+        for f in os.listdir(src):
+            if f.endswith(".v") or f == "_CoqProject":
+                shutil.copy(os.path.join(src, f), dst)
+    return dest
+
+
+def props_obligations(area, props_file, root=None):
     """Re-run coqc on the property file; list theorems, which were accepted, and
     the assumptions Print Assumptions reported for each.
     Returns dict(theorems=[...], discharged=[...], axioms={thm:[...]}, ok, log, cmd)."""
-    d = os.path.join(COQ, area)
+    d = os.path.join(root or COQ, area)
     src = open(os.path.join(d, props_file)).read()
     thms = [(m.group(2), src.count("\n", 0, m.start()) + 1) for m in THM.finditer(src)]
-    cmd = ["coqc"] + qflags(area) + [props_file]
-    with Lock("coq." + area):
+    cmd = ["coqc"] + qflags(area, root) + [props_file]
+    with Lock("coq." + area + ("" if root is None else ".private")):
         rc, o = sh(["timeout", "1200"] + cmd, cwd=d, timeout=1300)
     res = dict(theorems=[t for t, _ in thms], cmd=" ".join(cmd), log=o[-4000:], ok=rc == 0, axioms={})
     if rc == 0:
@@ -369,14 +384,21 @@ class TieCheck:
         targets = None
         if self.coq_targets is not None:
             targets = [p[:-2] + ".vo" for p in plist0] + list(self.coq_targets)
-        ok, lg = coq_build(self.area, clean=(tier == "thorough" and os.environ.get("VERIF_NO_CLEAN") != "1" and targets is None),
-                           targets=targets)
+        ok, lg = coq_build(self.area, targets=targets)
+        proot = None
+        if tier == "thorough" and os.environ.get("VERIF_NO_CLEAN") != "1":
+            # from-clean rebuild of the whole closure in a private copy (obligations and coqchk use it)
+            proot = private_copy(self.area, os.path.join(work, "coqclean"))
+            okp, lgp = coq_build(self.area, targets=targets, root=proot)
+            coverage["clean_rebuild"] = "ok" if okp else "FAILED"
+            if not okp:
+                ok, lg = False, lgp
         if not ok:
             problems.append(("coq-build", lg[-3000:]))
         plist = self.props if isinstance(self.props, (list, tuple)) else [self.props]
         ob = dict(theorems=[], discharged=[], axioms={}, ok=True, cmd="", log="")
         for pf in plist:
-            o1 = props_obligations(self.area, pf)
+            o1 = props_obligations(self.area, pf, root=proot)
             ob["theorems"] += o1["theorems"]
             ob["discharged"] += o1["discharged"]
             ob["axioms"].update(o1["axioms"])
@@ -395,12 +417,12 @@ class TieCheck:
         checker = ["make -C coq/%s (full .vo)" % self.area, ob["cmd"]]
         if tier == "thorough" and os.environ.get("VERIF_NO_COQCHK") != "1" and not problems:
             lib = None
-            for i, t in enumerate(qflags(self.area)):
-                if t == os.path.join(COQ, self.area):
-                    lib = qflags(self.area)[i + 1]
-            cmd = ["coqchk", "-silent", "-o"] + qflags(self.area) + ["%s.%s" % (lib, pf[:-2]) for pf in plist]
-            with Lock("coq." + self.area):
-                rc, o = sh(["timeout", "3000"] + cmd, cwd=os.path.join(COQ, self.area), timeout=3100)
+            qf = qflags(self.area, proot)
+            for i, t in enumerate(qf):
+                if t == os.path.join(proot or COQ, self.area):
+                    lib = qf[i + 1]
+            cmd = ["coqchk", "-silent", "-o"] + qf + ["%s.%s" % (lib, pf[:-2]) for pf in plist]
+            rc, o = sh(["timeout", "3000"] + cmd, cwd=os.path.join(proot or COQ, self.area), timeout=3100)
             checker.append(" ".join(cmd))
             coverage["coqchk"] = "ok" if rc == 0 else "FAILED"
             coverage["coqchk_output_tail"] = o[-1500:]
@@ -421,7 +443,8 @@ class TieCheck:
             else:
                 if os.path.isdir(casedir):
                     shutil.rmtree(casedir)
-                args = [hb, "out=" + casedir, "shards=%d" % self.shards] + self.harness_args(tier)
+                nshards = self.shards if tier == "quick" else max(self.shards, 64)   # small shards: coqc memory
+                args = [hb, "out=" + casedir, "shards=%d" % nshards] + self.harness_args(tier)
                 if replay:
                     args.append("replay=" + replay)
                 rc, o = sh(args, cwd=work, env=go_env(), timeout=3000)
